@@ -10,7 +10,9 @@ The composed system sender → datagram network → receiver (C01Sys), part 1: d
 `net` holding every fragment datagram of every packet `emit_packet` has returned so far, and the
 instrumented receiver `PRecv.G` (`PRecvOrdDefs.lean`). All steps go through the existing model
 functions: `PSend.stepH` (`enqueue` / `emit` / `acknowledge`), `Pending.datagram`, `PRecv.stepT`
-(`handleDatagram` / `receiveT`).
+(`handleDatagram` / `receiveT` / `resynchronize`). Sync frames are two steps: `sync` (the sender
+records its `next_id` in the ghost list `syncs`, under the ghost guard `SyncOk`) and `resync k` (the
+network hands the receiver entry `k` of `syncs`).
 -/
 
 namespace Uflow.Sys
@@ -51,6 +53,9 @@ structure Sys where
   /-- ghost: `(adv, base_id)` of the receiver initially and after every `receive` — the values an
   acknowledgement can carry -/
   seen : List (Nat × Nat)
+  /-- ghost: `(number of packets emitted so far, next_id)` recorded by every `sync` step — the values
+  the `next_packet_id` field of a sync frame of the sender can carry -/
+  syncs : List (Nat × Nat)
   deriving Repr
 
 inductive SOp where
@@ -64,6 +69,12 @@ inductive SOp where
   | recv
   /-- network: hand the sender an acknowledgement carrying entry number `k` of `seen` -/
   | ack (k : Nat)
+  /-- sender: a sync frame carrying `next_packet_id = Some(next_id)` is put on the wire (recorded in
+  `syncs`); only taken when `SyncOk` holds (otherwise a no-op) -/
+  | sync
+  /-- network: hand the receiver a sync frame carrying entry number `k` of `syncs`:
+  `resynchronize(next_packet_id)` -/
+  | resync (k : Nat)
   deriving Repr
 
 /-- The packet `emit_packet(f)` returns in sender state `s`, if any. -/
@@ -94,9 +105,36 @@ def AckFresh (s : Sys) (a : Nat) : Prop :=
 
 instance (s : Sys) (a : Nat) : Decidable (AckFresh s a) := by unfold AckFresh; infer_instance
 
+/-- The emitted packet `x` (emission position `x.uid`) has been completely received, as far as the
+receiver can tell: `receive` took it out of the window (it is in the log), or the window base has
+passed it, or it lies in the receive window and its slot has the entry flag (`handle_datagram` sets it
+when `try_add` returns the reassembled packet). -/
+def Recvd (s : Sys) (x : Emitted) : Prop :=
+  (∃ e ∈ s.rcv.log, e.uid = x.uid) ∨ x.uid < s.rcv.adv ∨
+  (x.uid < s.rcv.adv + s.rcv.st.windowSize ∧
+    (getSlot s.rcv.st (widx s.rcv.st x.sequenceId)).entryFlag = true)
+
+instance (s : Sys) (x : Emitted) : Decidable (Recvd s x) := by unfold Recvd; infer_instance
+
+/-- Ghost guard of the `sync` step, to be discharged by the frame layer (`emit_sync_frame` sends
+`next_packet_id` only when the resend queue and the pending queue are empty: every fragment of every
+Reliable / Persistent packet still in the send window has been acknowledged at frame level): every
+Reliable packet emitted so far has been completely received (`Recvd`). Nothing is required of
+Unreliable, TimeSensitive or Persistent packets. -/
+def SyncOk (s : Sys) : Prop := ∀ x ∈ s.hist.emitted, x.mode = .reliable → Recvd s x
+
+instance (s : Sys) : Decidable (SyncOk s) := by unfold SyncOk; infer_instance
+
+/-- Network hypothesis for sync frames (20-bit ids, as `Fresh`): a sync frame carrying the sender's
+next id with unwrapped value `n` is handed to the receiver only while the receive window base is less
+than `2^20 - W` ids beyond it. -/
+def SyncFresh (s : Sys) (n : Nat) : Prop := s.rcv.adv + s.rcv.st.windowSize < n + 2^20
+
+instance (s : Sys) (n : Nat) : Decidable (SyncFresh s n) := by unfold SyncFresh; infer_instance
+
 /-- One step of the system. Steps the environment is not allowed to take (an oversized packet, a
-datagram / acknowledgement that is not in the network or violates `Fresh` / `AckFresh`) leave the
-state unchanged. -/
+datagram / acknowledgement / sync frame that is not in the network or violates `Fresh` / `AckFresh` /
+`SyncFresh`, a `sync` while `SyncOk` fails) leave the state unchanged. -/
 def stepS (s : Sys) : SOp → R Sys
   | .enq d c m f =>
     if d.length ≤ MAX_PACKET_SIZE then
@@ -121,6 +159,15 @@ def stepS (s : Sys) : SOp → R Sys
       if AckFresh s a then
         bindR (stepH s.snd s.hist (.ack rb)) fun r => .ok { s with snd := r.1, hist := r.2 }
       else .ok s
+  | .sync =>
+    if SyncOk s then .ok { s with syncs := s.syncs ++ [(s.hist.emitted.length, s.snd.nextId)] } else .ok s
+  | .resync k =>
+    match s.syncs[k]? with
+    | none => .ok s
+    | some (n, id) =>
+      if SyncFresh s n then
+        bindR (stepT s.rcv (.resync id)) fun g => .ok { s with rcv := g, seen := s.seen ++ [(g.adv, g.st.baseId)] }
+      else .ok s
 
 def runS (s : Sys) : List SOp → R Sys
   | [] => .ok s
@@ -128,7 +175,8 @@ def runS (s : Sys) : List SOp → R Sys
 
 /-- `PacketSender::new(w, b, a)` and `PacketReceiver::new(W, b, m)` with the same initial id `b`. -/
 def initS (w W b a m : Nat) : Sys :=
-  { snd := PSend.init w b a, hist := {}, pend := [], net := [], rcv := initG W b m, seen := [(0, b)] }
+  { snd := PSend.init w b a, hist := {}, pend := [], net := [], rcv := initG W b m, seen := [(0, b)],
+    syncs := [] }
 
 /-! ### invariants -/
 
